@@ -1,4 +1,5 @@
 import ArimModel.Geometry
+import ArimProofs.Tie.C01
 import ArimProofs.Lemmas.Geometry
 import Mathlib.Tactic.Ring
 import Mathlib.Tactic.LinearCombination
@@ -843,4 +844,46 @@ example : inRectbox (⟨1, 2, 3⟩ : P3 ℚ) (some 1) none none (some 2) (some 0
 example : inRectbox (⟨1, 2, 3⟩ : P3 ℚ) none none none none none none = true := rfl
 
 end examples
+
+/-! ## Pairwise distances of the kernel as translated from the source on this run
+
+`Src.distance_pairwise_cell` (file `Generated/SrcC01.lean`) is the translation, for one output cell, of
+`arim.geometry._distance_pairwise`; `Tie.C01.tie_distance_pairwise` identifies it with the model's `dist3`. -/
+section OnSourceDistance
+open Arim.Tie.C01
+
+/-- the routines of the translated code at `K = ℝ` -/
+noncomputable def srcOpsR : Src.Ops ℝ :=
+  { sin := Real.sin, cos := Real.cos, asin := Real.arcsin, sqrt := Real.sqrt, exp := Real.exp, sinc := id,
+    pi := Real.pi, ofNat := fun n => (n : ℝ), ofInt := fun z => (z : ℝ),
+    floor := fun x => ⌊x⌋, round := fun x => round x, trunc := fun x => ⌊x⌋ }
+
+/-- **every entry of the distance table is the Euclidean distance of its pair** (translated kernel) -/
+theorem src_distance_pairwise_euclidean (x1 y1 z1 x2 y2 z2 : Nat → ℝ) (i j : Nat) :
+    Src.distance_pairwise_cell srcOpsR x1 y1 z1 x2 y2 z2 i j =
+      Real.sqrt ((x1 i - x2 j) ^ 2 + (y1 i - y2 j) ^ 2 + (z1 i - z2 j) ^ 2) := by
+  rw [tie_distance_pairwise]
+  simp only [dist3, srcOpsR]
+  congr 1; ring
+
+/-- it is symmetric in the two point sets, non-negative, and zero exactly for coinciding points -/
+theorem src_distance_pairwise_metric (x1 y1 z1 x2 y2 z2 : Nat → ℝ) (i j : Nat) :
+    Src.distance_pairwise_cell srcOpsR x1 y1 z1 x2 y2 z2 i j = Src.distance_pairwise_cell srcOpsR x2 y2 z2 x1 y1 z1 j i
+      ∧ 0 ≤ Src.distance_pairwise_cell srcOpsR x1 y1 z1 x2 y2 z2 i j
+      ∧ (Src.distance_pairwise_cell srcOpsR x1 y1 z1 x2 y2 z2 i j = 0 ↔ (x1 i = x2 j ∧ y1 i = y2 j ∧ z1 i = z2 j)) := by
+  rw [src_distance_pairwise_euclidean, src_distance_pairwise_euclidean]
+  refine ⟨by congr 1; ring, Real.sqrt_nonneg _, ?_⟩
+  have h0 : 0 ≤ (x1 i - x2 j) ^ 2 + (y1 i - y2 j) ^ 2 + (z1 i - z2 j) ^ 2 := by positivity
+  rw [Real.sqrt_eq_zero h0]
+  constructor
+  · intro h
+    have hx : (x1 i - x2 j) ^ 2 = 0 := by nlinarith [sq_nonneg (x1 i - x2 j), sq_nonneg (y1 i - y2 j), sq_nonneg (z1 i - z2 j)]
+    have hy : (y1 i - y2 j) ^ 2 = 0 := by nlinarith [sq_nonneg (x1 i - x2 j), sq_nonneg (y1 i - y2 j), sq_nonneg (z1 i - z2 j)]
+    have hz : (z1 i - z2 j) ^ 2 = 0 := by nlinarith [sq_nonneg (x1 i - x2 j), sq_nonneg (y1 i - y2 j), sq_nonneg (z1 i - z2 j)]
+    exact ⟨sub_eq_zero.mp (pow_eq_zero_iff (by norm_num) |>.mp hx), sub_eq_zero.mp (pow_eq_zero_iff (by norm_num) |>.mp hy),
+      sub_eq_zero.mp (pow_eq_zero_iff (by norm_num) |>.mp hz)⟩
+  · rintro ⟨h1, h2, h3⟩; rw [h1, h2, h3]; ring
+
+end OnSourceDistance
+
 end Arim.C17
